@@ -49,7 +49,14 @@ TRANSPARENT = {
     "std::convert::Into::into": 0,
     "std::convert::From::from": 0,
     "std::iter::IntoIterator::into_iter": 0,
+    # Option<T> -> Option<&T> / Option<&T::Target>: the same option seen through a reference
+    "std::option::Option::<T>::as_ref": 0,
+    "std::option::Option::<T>::as_mut": 0,
+    "std::option::Option::<T>::as_deref": 0,
+    "std::option::Option::<T>::as_deref_mut": 0,
+    "std::result::Result::<T, E>::as_ref": 0,
 }
+MAX_INLINE_DEPTH = 3
 CLONE = {"std::clone::Clone::clone", "std::borrow::ToOwned::to_owned", "std::string::ToString::to_string"}
 
 BOX_INTERNALS = {"std::boxed::Box", "std::ptr::Unique", "std::ptr::NonNull"}
@@ -68,9 +75,10 @@ class TooManyPaths(Exception):
 
 
 class Path:
-    __slots__ = ("blocks", "events", "refine", "end", "ret", "env", "decisions")
+    __slots__ = ("blocks", "events", "refine", "end", "ret", "env", "decisions", "mem")
 
-    def __init__(self, blocks, events, refine, end, ret, env, decisions):
+    def __init__(self, blocks, events, refine, end, ret, env, decisions, mem=None):
+        self.mem = mem
         self.blocks = blocks          # list of bb
         self.events = events          # list of event dicts
         self.refine = refine          # place term -> frozenset(variants)
@@ -173,8 +181,18 @@ class _PromBody:
 
 
 class Walker:
-    def __init__(self, body, max_visits=2, max_paths=200000, transparent=None, follow_unwind=False):
+    def __init__(self, body, max_visits=2, max_paths=200000, transparent=None, follow_unwind=False,
+                 inline=None, _depth=0, _stack=(), _root=None, _tag=()):
         self.body = body
+        # inline: callable(resolved callee path) -> Body or None.  A call to a function it returns is not kept as an
+        # opaque ("call", ..) term: the callee's paths are walked with the actual arguments substituted for its
+        # parameters, so its events, decisions, writes and refinements appear in the caller's path (events keep the
+        # caller's block in "bb" and carry "inl"/"inl_bb").  Depth-bounded, never recursive.
+        self.inline = inline
+        self._depth = _depth
+        self._stack = _stack
+        self.root = _root or self
+        self._tag = _tag
         self.max_visits = max_visits
         self.max_paths = max_paths
         self.transparent = dict(TRANSPARENT)
@@ -215,7 +233,10 @@ class Walker:
         if x is t:
             return False      # a bare value (parameter, call result), not a memory place
         if isinstance(x, tuple) and x and x[0] == "param":
-            ty = self.body.locals[x[1]]["s"]
+            locs = self.root.body.locals
+            if x[1] >= len(locs):
+                return False
+            ty = locs[x[1]]["s"]
             return ("RefCell<" in ty) or ("RefMut<" in ty) or ty.startswith("&mut") or ty.startswith("*mut")
         return False
 
@@ -350,7 +371,7 @@ class Walker:
         return ("const", "?", rv.get("repr", k), None)
 
     # ---- walking ----------------------------------------------------
-    def paths(self, init_refine=None, entry=0, stop_blocks=(), init_env=None):
+    def paths(self, init_refine=None, entry=0, stop_blocks=(), init_env=None, init_mem=None):
         """Enumerate paths from `entry`.  Yields Path objects."""
         self.npaths = 0
         self.truncated = 0
@@ -358,7 +379,7 @@ class Walker:
         refine0 = dict(init_refine or {})
         env0 = dict(init_env or {})
         # iterative DFS; state = (bb, env, mem, refine, events, decisions, blocks, visits)
-        stack = [(entry, env0, {}, refine0, [], [], [], {})]
+        stack = [(entry, env0, dict(init_mem or {}), refine0, [], [], [], {})]
         body = self.body
         while stack:
             bb, env, mem, refine, events, decisions, blocks, visits = stack.pop()
@@ -393,7 +414,7 @@ class Walker:
             k = t["k"]
             if k == "return":
                 ret = self._local(env, 0)
-                out.append(Path(blocks, events, refine, "return", ret, env, decisions))
+                out.append(Path(blocks, events, refine, "return", ret, env, decisions, mem))
                 self.npaths += 1
                 if self.npaths > self.max_paths:
                     raise TooManyPaths(body.path)
@@ -424,12 +445,54 @@ class Walker:
                 decl = callee_decl(t)
                 name = callee_name(t)
                 args = tuple(self.operand(env, mem, a) for a in t["args"])
-                site = (bb, cnt)
+                site = (bb, cnt) + self._tag
                 ev = {"k": "call", "callee": name, "decl": decl, "args": args, "bb": bb, "line": t["line"],
                       "exp": t.get("exp"), "site": site, "self_ty": t["callee"].get("self_ty"),
                       "path_args": t["callee"].get("path_args"), "target": t["target"],
                       "unsafe": t["callee"].get("unsafe", False), "closure_args": t["callee"].get("closure_args", [])}
                 events.append(ev)
+                H = None
+                if self.inline is not None and self._depth < MAX_INLINE_DEPTH and name != body.path and name not in self._stack:
+                    H = self.inline(name)
+                    if H is not None and H.mir["arg_count"] != len(args):
+                        H = None
+                if H is not None:
+                    ev["inlined"] = True
+                    sub = Walker(H, max_visits=self.max_visits, max_paths=self.max_paths, inline=self.inline,
+                                 _depth=self._depth + 1, _stack=self._stack + (body.path,), _root=self.root,
+                                 _tag=self._tag + ((bb, cnt, H.path),))
+                    sub.transparent = self.transparent
+                    sps = sub.paths(init_refine=refine, init_env={i + 1: a for i, a in enumerate(args)}, init_mem=mem)
+                    self.truncated += sub.truncated
+                    for sp in sps:
+                        evs2 = list(events)
+                        for e in sp.events:
+                            e2 = dict(e)
+                            e2.setdefault("inl_bb", e["bb"])
+                            e2.setdefault("inl", H.path)
+                            e2["bb"] = bb
+                            evs2.append(e2)
+                        decs2 = decisions + [(c, v, bb) for c, v, _b in sp.decisions]
+                        if sp.end != "return" or t["target"] is None:
+                            out.append(Path(blocks, evs2, sp.refine, sp.end if sp.end != "return" else ("diverge", name), None, env, decs2, sp.mem))
+                            self.npaths += 1
+                            continue
+                        env2, mem2 = dict(env), dict(sp.mem)
+                        d = t["dest"]
+                        evs2.append({"k": "inline-return", "callee": name, "result": sp.ret, "bb": bb, "line": t["line"]})
+                        if not d["p"]:
+                            env2[d["l"]] = sp.ret
+                        else:
+                            target = self.place(env2, mem2, d)
+                            mem2[target] = sp.ret
+                            evs2.append({"k": "write", "place": target, "value": sp.ret, "bb": bb, "line": t["line"],
+                                         "deref": any(e == "deref" for e in d["p"]),
+                                         "field": target[2] if target[0] == "field" else None,
+                                         "base_ty": body.locals[d["l"]]["s"], "raw": body.locals[d["l"]].get("k") == "ptr"})
+                        stack.append((t["target"], env2, mem2, sp.refine, evs2, decs2, blocks, visits))
+                    if self.npaths > self.max_paths:
+                        raise TooManyPaths(body.path)
+                    continue
                 if decl in self.transparent and len(args) > self.transparent[decl]:
                     res = args[self.transparent[decl]]
                 elif decl in CLONE and args:
@@ -438,6 +501,8 @@ class Walker:
                     st = t["callee"].get("self_ty") or ""
                     okv = ("Some", "None") if "Option<" in st else ("Ok", "Err")
                     res = ("try", args[0], okv)
+                elif decl == "std::ops::FromResidual::from_residual" and "Option<" in (t["callee"].get("self_ty") or name):
+                    res = ("agg", "std::option::Option", "None", ())   # `x?` on a None: the function returns None
                 elif (name.endswith("box_assume_init_into_vec_unsafe") or name.endswith("::into_vec")) and args:
                     # `vec![a, b, ..]`: the array literal written into the fresh box is the vector's content
                     res = ("call", name, args, site)
